@@ -42,6 +42,9 @@ func (r *Report) openRules(known []knownFinding) map[string]bool {
 
 // secondWorld loads the normal form (helpers inlined, returns canonicalised) of the program of w, or nil.
 func secondWorld(w *World, opts LoadOpts) *World {
+	if os.Getenv("BANDCHECK_NOPASS2") != "" { // debugging aid: first-pass verdicts only
+		return nil
+	}
 	ov := w.BuildNormalForm()
 	if ov == nil {
 		return nil
